@@ -355,19 +355,11 @@ def r11e(run):
     """a retry stage of the union must *fail* on an element it cannot convert under its stricter flags, not exclude or
     preserve it: otherwise the stage 'succeeds' with elements missing / unconverted that the caller's own options convert"""
     from . import c18
-    f, fa, stages = c18.union_stages(run)
+    f, table, stages = c18.union_stages(run)
     run.floor("R11e", "union retry stages", len(stages), 2)
-    for n, var, fl, lowered, extra in stages:
-        o = kwarg([c for m, c in fa.all_calls() if m is n and call_attr(c) == "enter"][0], "options")
-        ctor = o if isinstance(o, ast.Call) else None
-        if isinstance(o, ast.Name):
-            if o.id in fa.rd.locals:
-                cs = [x.node for x in prov(fa).of_name(n, o.id) if x.kind == "call"]
-                ctor = cs[0] if cs else None
-            else:
-                ctor = f.module.assigns.get(o.id)
-        kws = {k.arg: k.value for k in ctor.keywords} if isinstance(ctor, ast.Call) else {}
-        missing = [p for p in POLICY_ATTRS if not (isinstance(kws.get(p), ast.Constant) and kws[p].value == "throw")]
+    for sg, var, fl, lowered, extra, entered in stages:
+        kws = dict(sg)
+        missing = [p for p in POLICY_ATTRS if kws.get(p) != "throw"]
         run.check("R11e", f, f"stage `{var}` switches the exclude / preserve policies off", not missing,
                   construct=f"union stage [{'+'.join(sorted(fl))}] keeps the caller's exclude/preserve policies",
                   message=f"the retry stage `{var}` raises {sorted(fl)} but leaves {missing} as the caller set them: an "
@@ -375,7 +367,7 @@ def r11e(run):
                           f"stage reports success",
                   necessity="Optional[List[int]] given ['1', 2, 'x'] under invalid_items='exclude' returns [2] (the "
                             "convertible '1' is dropped by the strict stage) while List[int] returns [1, 2]; under "
-                            "'preserve' it returns ['1', 2, 'x'] with '1' unconverted", node=n.ast)
+                            "'preserve' it returns ['1', 2, 'x'] with '1' unconverted")
 
 
 def r11b(run):
